@@ -11,13 +11,14 @@ add("C01",
     "index routing (childSlabIndexInfo, linear and binary search, with an induction lemma on cumulative counts); parent bookkeeping of ArrayMetaDataSlab "
     "(SplitChildSlab, rebalanceChildren, mergeChildren, MergeOrRebalanceChildSlab, Set/Insert/Remove: cumulative counts, header refresh, child headers agree with stored children); "
     "root split / promotion keep the root identifier and the element count; every mutator ends with the touched slabs stored.",
-    A_TREE + "ArrayMetaDataSlab.LendToRight/BorrowFromRight are trusted contracts. Element sizes are stable during one slab operation (A4).",
+    A_TREE + "ArrayMetaDataSlab.LendToRight/BorrowFromRight are verified bodies now (telescoping invariant over the cumulative counts). Element sizes are stable during one slab operation (A4). The notification fails only when the updater itself fails (ghost counter updFail).",
     "DESIGN.md Status, 9/C01")
 add("C02",
     "Per-function proofs on the map side: hkeyElements.getElement/Set/Remove/Merge (strictly ascending digests, exact insert/update/delete positions, size bookkeeping on insertion paths), "
     "MapMetaDataSlab routing by first key (getChildSlabByDigest) and parent bookkeeping (SplitChildSlab, rebalanceChildren, mergeChildren, MergeOrRebalanceChildSlab, Set, Remove), "
-    "index-slab Split/Merge/LendToRight/BorrowFromRight; OrderedMap.set/remove notification.",
-    A_TREE + "MapDataSlab operations are header-level trusted contracts (their bodies delegate to the element lists); element-level Get/Set/Remove are interface contracts; key equality and digests are uninterpreted functions of their arguments (A5). Dictionary semantics across the whole tree is composition.",
+    "index-slab Split/Merge/LendToRight/BorrowFromRight; the map leaf MapDataSlab.Split/Merge/LendToRight/BorrowFromRight/Set/Remove and hkeyElements.Split/LendToRight/BorrowFromRight as verified bodies (contents and order preserved, digests stay ascending across the two lists, header first key = smallest digest); "
+    "collision groups: singleElement.Get/Set/Remove, inlineCollisionGroup.Get/Set/Remove, externalCollisionGroup.Set/Remove; OrderedMap.set/remove: notification, element count +1 exactly on insertion / -1 on removal (asserted before the parent notification), root split and promotion (OrderedMap.splitRoot, promoteChildAsNewRoot); OrderedMap.notifyParentIfNeeded fails only when the updater fails.",
+    A_TREE + "Element-level Get/Set/Remove are called through interface contracts; their implementers are checked against those contracts by conformance views, of which only part discharges (listed in evidence per implementer); key equality and digests are uninterpreted functions of their arguments (A5). OrderedMap.get is an abstraction (trusted). Dictionary semantics across the whole tree is composition.",
     "DESIGN.md Status, 9/C02")
 add("C03",
     "Ledger frame: no function of PersistentSlabStorage other than commit/FastCommit/NondeterministicFastCommit changes the ledger ghost (sameLedger post-conditions); commit post-condition and loop invariant (processed prefix written, rest untouched, temp-address ids never passed to the ledger); "
@@ -32,28 +33,28 @@ add("C04",
 add("C05",
     "Unbounded proof, per function, for a symbolic slab size t in [256,32768] and arbitrary element sizes/counts: setThreshold establishes the threshold invariant; data-slab and index-slab Split/LendToRight/BorrowFromRight/Merge/CanLend* of arrays and map index slabs keep sizes inside [min,max], siblings non-empty, header.size = prefix + sum; "
     "parents keep every child header in band after Set/Insert/Remove (array and map index slabs); splitRoot yields exactly two in-band children.",
-    A_TREE + "A4 (element ByteSize >= 1). MapDataSlab band contracts are trusted at slab level.",
+    A_TREE + "A4 (element ByteSize >= 1). The map leaf is verified too (hkeyElements.Split/LendToRight/BorrowFromRight/CanLendToLeft/CanLendToRight with witness-carrying post-conditions, MapDataSlab on top): both leaves in band for every slab size, the error branch 'fewer than two elements' of MapDataSlab.Split proved unreachable (2-element guarantee); an over-full root is split before OrderedMap.set/remove report to the parent; first-level elements stay within the per-element limit (spill rule of inlineCollisionGroup.Set proved: spilled exactly when at the first level and over the limit).",
     "DESIGN.md Status, 9/C05")
 add("C06",
-    "Size bookkeeping only: header.size = prefix + sum of element sizes is a post-condition of every array data-slab operation; index-slab sizes = prefix + n*headerSize; prefix swaps at root split/promotion and inline/uninline are exact; hkeyElements size on insertion paths; the V1 array index-slab decoder recomputes the same formula.",
-    "The encoder byte counter (bytes written = reported size) is NOT built; this check decides only the in-memory size equations that the encoders report.",
+    "header.size = prefix + sum of element sizes is a post-condition of every array data-slab operation and of every map leaf / element-list operation (hkeyElements.Set/Remove/Merge/Split/LendToRight/BorrowFromRight with a heap-defined element measure); index-slab sizes = prefix + n*headerSize; prefix swaps at root split/promotion and inline/uninline are exact; ghost byte counter: the index-slab encoders, the array and map leaf encoders, element lists, elements, groups and references write exactly the reported number of bytes (minus the documented 16-byte saving); the V1 index-slab decoders recompute the same formula; the extra-data table keeps one entry per inlined map.",
+    "Bytes written by the CBOR stream encoder are counted by assumed contracts of the library calls; extra-data sections are counted separately (xbytes, by definition); caller storables write ByteSize() bytes (assumed interface contract, not satisfied by conformance for atree's own slabs whose size changes in place - listed). Nested groups below the first level have no size bound (uint32 arithmetic there is assumed in range, finding (v) in DESIGN).",
     "DESIGN.md Status, 9/C06")
 add("C08",
     "Storage layer: Retrieve / RetrieveIgnoringDeltas / RetrieveIfLoaded return the overlay view whichever layer serves; they change only the cache and never the view; cache coherence (invCoh) is preserved by every storage operation including DropCache and the sequential BatchPreload; the V1 index-slab decoder returns a normal-form slab.",
     "A8 dec(enc(s)) = s; container-level schedule quantification (commit/evict/reopen between container operations) is composition, not decided.",
     "DESIGN.md Status, 9/C08")
 add("C09",
-    "Per-function reference/liveness balance: Split/splitRoot store exactly the new ids; mergeChildren/promoteChildAsNewRoot/Inline remove exactly the id that stops being referenced; children ids stay pairwise distinct and agree with stored slabs (metaLinked / mLinked); storage-frame post-conditions (other ids untouched); child-reference enumeration complete for data and index slabs.",
+    "Identifiers handed out by the storage are pairwise distinct, also those not stored yet (ghost set issued): Array.splitRoot / OrderedMap.splitRoot end with two distinct children that agree with the stored slabs; a reference to an external collision group is never copied (the copy would own the slab twice); externalCollisionGroup.Remove removes the group's slab exactly when the group collapses; per-function reference/liveness balance: Split/splitRoot store exactly the new ids; mergeChildren/promoteChildAsNewRoot/Inline remove exactly the id that stops being referenced; children ids stay pairwise distinct and agree with stored slabs (metaLinked / mLinked); storage-frame post-conditions (other ids untouched); child-reference enumeration complete for data and index slabs.",
     A_TREE + "Global 'storage = reachable set' is composition.",
     "DESIGN.md Status, 9/C09")
 add("C10",
     "Notification sweep (ghost counter): Array.set/Insert/remove/SetType/PopIterate and OrderedMap.set/remove/PopIterate end every successful path with the parent notification; Array/OrderedMap.Storable inline exactly when the root is a data slab whose inlined size fits, return the slab itself iff inlined, keep the slab id (hence the value id), with exact prefix swap; Inline/Uninline of both data slabs; child-index maintenance under insert/remove for any map iteration order. "
     "One genuine defect found by this check and repaired in /repo (fix: 47c9461, PopIterate did not notify).",
-    "The parent updater itself is a function value (its effect is havoc of the heap, A2/F); depth >= 3 is covered only through the recursive use of the same contracts.",
+    "The parent updater itself is a function value (its effect is havoc of the heap, A2/F); depth >= 3 is covered only through the recursive use of the same contracts. The inline limit handed to the child callback is asserted to be the value limit of the key the child sits under (OrderedMap.set / Get / getElementAndNextKey).",
     "DESIGN.md Status, 9/C10, KNOWN_FINDINGS")
 add("C12",
-    "hkeyElements.Set at level 0: a new key whose digest group already holds more than the (symbolic) limit of entries is refused with a collision-limit error and the element list and storage view are unchanged; any error leaves the list's own fields unchanged; strictly ascending digests preserved by Set/Remove.",
-    "Element-level group operations (inline/external group spill and collapse) are interface contracts, not verified bodies; digests are uninterpreted per (key, level).",
+    "Collision groups as verified bodies: singleElement.Set updates an equal key in place and otherwise builds a group one level deeper in which the resident element sits under the digest of ITS key at that level (asserted at the hand-over), or a plain list at the last level; inlineCollisionGroup.Set spills exactly when the group sits at the first level and exceeds the per-element limit, into a stored, unlimited-size, collision-group slab of the map's address holding the same list, leaving a fixed-size reference; inlineCollisionGroup.Remove / externalCollisionGroup.Remove collapse a group with one plain element left to that element (and remove the slab). hkeyElements.Set at level 0: a new key whose digest group already holds more than the (symbolic) limit of entries is refused with a collision-limit error and the element list and storage view are unchanged; any error leaves the list's own fields unchanged; strictly ascending digests preserved by Set/Remove.",
+    "Digests are uninterpreted per (key, level) (A5, ghost dig/dgKey); the element-level dictionary view (ehas/gerr) used by the limit clause is an interface-level abstraction whose conformance views discharge only in part (listed).",
     "DESIGN.md Status, 9/C12")
 add("C13",
     "Per-step proofs for every array and map iterator flavour that is one function deep: range validation (RangeIterator / ReadOnlyRangeIteratorWithMutationCallback reject out-of-range and inverted bounds as user errors, "
@@ -63,15 +64,15 @@ add("C13",
     "is the successor inside element j if any, else the first key of element j+1, else none (hkeyElements), next list entry (singleElements), first key of the next child (MapMetaDataSlab, routed by first keys); "
     "first-key descent (firstKeyInElement(s)/firstKeyInMapSlab/firstMapDataSlab) equals the ghost first key; mapElementIterator.next yields plain elements in list order and reports the end only at the end; readOnlyMapIterator.advance follows the sibling link.",
     A_TREE + "Whole-enumeration statements (every element exactly once over a full traversal) are the composition of these steps over the assumed tree invariant and are not machine-checked; loaded-value iterators, "
-    "PopIterate order and mutation-during-iteration across slab splits are not covered; OrderedMap.getElementAndNextKey/getNextKey are trusted compositions; the ghost functions flat/fkE/fkEs/fkS/nkIn are defined by assumed unfoldings; "
+    "PopIterate order and mutation-during-iteration across slab splits are not covered; OrderedMap.getNextKey is a trusted composition; the ghost functions flat/fkE/fkEs/fkS/nkIn are defined by assumed unfoldings; "
     "collision groups are assumed non-empty; nested cursors assumed acyclic.",
     "DESIGN.md Status, 9/C13")
 add("C07",
-    "Header flags only: every helper of flag.go is proved against a bit-level contract (version nibble, root / holds-references / any-size / has-next / has-inlined bits, slab kind in the low five bits; setters change exactly their bit); "
+    "Byte-level round trip of the two index-slab codecs (non-root registers): the encoders are proved to write head, address, child count and one big-endian record per child (ghost byte content of the writer), the V1 decoders are proved to read exactly those fields, and the lemmas amdsRoundTrip / amdsRoundTripCounts / mmdsRoundTrip show that decoding what was encoded gives the same child headers, cumulative counts and own header (given child sizes and count fit 16 bits and children carry the slab's address). Header flags: every helper of flag.go is proved against a bit-level contract (version nibble, root / holds-references / any-size / has-next / has-inlined bits, slab kind in the low five bits; setters change exactly their bit); "
     "the head written first by each slab encoder (ArrayDataSlab, MapDataSlab, ArrayMetaDataSlab, MapMetaDataSlab, StorableSlab .Encode) is proved truthful at the point it is written: version 1, kind matches the slab type "
     "(collision-group leaves included), root bit = has extra data, holds-references bit = some element / key / value is or contains a reference (hasPointer family proved down to single elements, element lists and groups), "
     "any-size bit and next-slab bit from the slab's fields; the compact-map decoder gives every decoded map a private copy of the shared digests and fresh elements (content view).",
-    "The byte-level round trip decode(encode(s)) == s and canonical re-encoding are NOT decided (the CBOR stream encoder is an external dependency and the scratch-buffer write-through is not modelled); "
+    "For data slabs, element payloads and root registers (extra-data section) the byte-level round trip is NOT decided (the CBOR stream encoder / decoder are external); DecodeSlab / EncodeSlab dispatch is not part of the lemma; "
     "ArrayDataSlab.HasPointer is a trusted contract (slices.ContainsFunc); the has-inlined-slabs bit is not asserted; index slabs never set the holds-references bit (asserted as is).",
     "DESIGN.md Status, 9/C07")
 add("C17",
@@ -80,12 +81,12 @@ add("C17",
     "elements and digests (origin inequality: nothing shared), fresh element objects, and is stored; the source is not written. "
     "Build: NewArrayFromBatchData packs the stream into leaves that are locally well-formed and closed only at >= target size (loop invariant), nextLevelArraySlabs packs children into well-formed index slabs, all full but the last and within "
     "the size limit, and the root leaf gets the root prefix (exit clause); ByteSliceToByteArray takes the single-slab path only when the real accumulated size fits (call-site pre-condition of newArrayWithElements).",
-    A_TREE + "NewMapFromBatchData / nextLevelMapSlabs and ByteArrayToByteSlice are not under contract; element-level CopyNonRefSimple of caller-supplied storables is an assumed interface contract (answer is a function of the storable); "
+    A_TREE + "nextLevelMapSlabs is verified like its array counterpart; of NewMapFromBatchData only the interface facts (seed check, result shape) are decided, not the leaf-packing loop; ByteArrayToByteSlice is not under contract; the copy of an array shares no extra-data record with the source; element-level CopyNonRefSimple of caller-supplied storables is an assumed interface contract (answer is a function of the storable); "
     "rebalancing of the last two nodes on each level is checked only through the callee pre-conditions that discharge; count overflow (uint32) is not excluded.",
     "DESIGN.md Status, 9/C17")
 add("C14",
     "commit and FastCommit (apply phase): at every return, error or not, processed ids are written and no longer pending, unprocessed ids are still pending with untouched registers, and the overlay view is unchanged for every id; a ledger error is returned categorised; NondeterministicFastCommit: partition loop for any map order, single-slab path, deletion loop and result loop (second view) preserve the view and coherence.",
-    "A3 atomic register operations; A7 cuts: encoder goroutines / received results are assumed to be (id, EncodeSlab(deltas[id])); the retry-convergence lemma is an induction over these post-conditions, not re-proved by the solver.",
+    "The queue capacities at the concurrency cut are asserted (result queue holds one slot per job, so an encoder never blocks after the apply loop stopped on a fault). A3 atomic register operations; A7 cuts: encoder goroutines / received results are assumed to be (id, EncodeSlab(deltas[id])); the retry-convergence lemma is an induction over these post-conditions, not re-proved by the solver.",
     "DESIGN.md Status, 9/C14")
 add("C15",
     "Every PersistentSlabStorage method in the sequential subset against the write-back overlay model (Store, Remove, Retrieve*, commit, FastCommit apply phase, DropDeltas, DropCache, GenerateSlabID, sequential BatchPreload, Deltas, DeltasWithoutTempAddresses, DeltasSizeWithoutTempAddresses, HasUnsavedChanges) with the coherence invariant.",
@@ -96,8 +97,8 @@ add("C18",
     "errors.As is modelled on the outermost wrapper (two constructors that rely on Unwrap are trusted); a sweep over all request paths is partial: only functions under contract are covered.",
     "DESIGN.md Status, 9/C18")
 add("C19",
-    "For arbitrary input bytes: newArrayMetaDataSlabFromDataV1 has every index/slice/conversion in range, allocations bounded by the input length, returns error or a normal-form slab; safeAdd2/3Uint32 exact. Violations of these safety obligations are replayed on the real code from the solver model.",
-    "Only this decoder and the arithmetic helpers are covered so far; the CBOR-based decoders need assumed contracts of the stream decoder and are not under contract.",
+    "For arbitrary input bytes: the safety sweep (index / slice bounds, nil, conversions, type assertions, unreachable panics) over the decoders that is discharged per function (claims list): both V1 index-slab decoders completely (with allocation bounded by the input length and a normal-form result), header queries, slab-id decoding, type-info references, and the discharged part of the CBOR-based decoders; safeAdd2/3Uint32 exact. Violations of these safety obligations are replayed on the real code from the solver model.",
+    "CBOR stream-decoder calls return unconstrained values of their type (no contract on the library); obligations of the CBOR-based decoders that depend on library guarantees stay unclaimed (listed in evidence).",
     "DESIGN.md Status, 9/C19")
 add("C20",
     "Child-reference enumeration is complete and order-preserving for ArrayDataSlab, ArrayMetaDataSlab, MapMetaDataSlab and for map elements (single element: key and value; external group: its slab reference; inline group: its nested list). "
@@ -105,7 +106,7 @@ add("C20",
     "every referencing slab is an iterated slab, every visited child has the owner of its parent, every reported root is a parentless iterated slab, the root count matches when requested, and the number of distinct "
     "referenced slabs equals the number of references enumerated (no slab referenced twice; ghost counter on ChildStorables invocations). "
     "One genuine defect found by this check and repaired in /repo (fix: 6e5cc9e, dangling references were not reported).",
-    "Counting arguments that need set cardinalities (every slab visited: len(visited) == len(slabs) implies equality) and GetAllChildReferences are not decided; the slab iterator is an assumed function-type contract; "
+    "GetAllChildReferences classifies every reference by the storage view (write set first): resolvable ones resolve, broken ones do not, and the traversal changes no view; counting arguments that need set cardinalities (every slab visited: len(visited) == len(slabs) implies equality) are not decided; the slab iterator is an assumed function-type contract; "
     "'with all slabs loaded' is an input assumption.",
     "DESIGN.md Status, 9/C20, KNOWN_FINDINGS")
 
